@@ -17,9 +17,12 @@ CmpOut(r, exact) == CASE r = "LT" -> {"-1"} [] r = "EQ" -> {"0"} [] r = "GT" -> 
 \* undecided by the recommendation: a date/time literal whose only fault is a seconds field of 60
 Undecided(ty, a) == /\ ty.v = "a" /\ BT[ty.b].p = "dt"
                     /\ LET q == WsOp("collapse", a) IN ~DtLex(BT[ty.b].lx, q).ok /\ DtLexM(BT[ty.b].lx, q, 60).ok
+\* the instance document of the harness declares the prefix "a" only
+PrefixDeclared(a) == LET q == WsOp("collapse", a) cs == {i \in 1..Len(q) : q[i] = ":"} IN cs = {} \/ SubSeq(q, 1, MinS(cs) - 1) = <<"a">>
 Allowed(e) ==
     LET ty == e.ty a == Chars(e.in) IN
     CASE Undecided(ty, a) \/ (e.b # "" /\ Undecided(ty, Chars(e.b))) -> {e.out}
+      [] e.f = "parse" /\ ty.v = "a" /\ ty.b = "QName" -> {Verdict(ValidOp(ty, a) /\ PrefixDeclared(a))}
       [] e.f \in {"parse", "dv.validate", "xsv.validate"} -> {Verdict(ValidOp(ty, a))}
       [] e.f \in {"dv.canon", "xsv.canon"} ->
             IF ~ValidOp(ty, a) THEN {"none"}
@@ -30,7 +33,7 @@ Allowed(e) ==
 \* every record is an independent call: a rejected record is noted (its line number) and the validation goes on
 VARIABLE bad
 TStep == /\ l <= Len(Tr) /\ l' = l + 1
-         /\ bad' = IF Tr[l].out \in Allowed(Tr[l]) THEN bad ELSE IF PrintT(<<"TRACE-REJECT", l>>) THEN Append(bad, l) ELSE bad
+         /\ bad' = IF Tr[l].out \in Allowed(Tr[l]) THEN bad ELSE IF PrintT(<<"TRACE-REJECT", l, Tags(Tr[l].ty, Chars(Tr[l].in), Chars(Tr[l].b))>>) THEN Append(bad, l) ELSE bad
          /\ UNCHANGED vars
 TInit == Init /\ l = 1 /\ bad = <<>>
 TSpec == TInit /\ [][TStep]_<<vars, l, bad>>
